@@ -534,6 +534,21 @@ func dualCheck(prop, part string, ops []string) verifsim.Check[duSc] {
 					if sc.Count > 0 && n > sc.Count {
 						res.Fail("findprov-count", "C15/findprov/over-count", "%d providers yielded, count %d", n, sc.Count)
 					}
+					// ... and then stops asking further peers: once count providers were yielded (the channel is closed then) no
+					// further GET_PROVIDERS request goes out on either network
+					if sc.Count > 0 && n == sc.Count {
+						closedAt := wan.sim.Now()
+						time.Sleep(time.Minute)
+						for _, sm := range []*duSide{wan, lan} {
+							for _, e := range sm.sim.Log() {
+								if e.Kind == "request" && e.Type == pb.Message_GET_PROVIDERS && e.Start > closedAt {
+									res.Fail("findprov-stops", "C15/findprov/asks-after-count", "count %d reached and the channel closed at %v, yet the %s DHT sent GET_PROVIDERS to a further peer at %v", sc.Count, closedAt, sm.name, e.Start)
+									break
+								}
+							}
+						}
+						res.Class("findprov-count-reached")
+					}
 				case "wanlookup":
 					_, _ = d.WAN.GetClosestPeers(ctx, mhKey)
 					_, _ = d.LAN.GetClosestPeers(ctx, mhKey)
